@@ -81,9 +81,9 @@ func init() {
 			"distinct = distinct (sources, data, fault); non-trivial = the fault hits a write that carries bytes",
 		N: func(tier string) int {
 			if tier == "thorough" {
-				return 40000
+				return 60000
 			}
-			return 2000
+			return 4000
 		},
 		Exhaustive: func(tier string) bool { return false },
 		Run: func(ctx *fw.Ctx, i int) fw.Result {
@@ -91,6 +91,15 @@ func init() {
 			g.O = c02Opts(ctx.Rng, ctx.Tier)
 			g.O.ErrPlants = false
 			prog := g.Bundle(1+ctx.Rng.Intn(2), 2+ctx.Rng.Intn(3))
+			if i%10 == 0 {
+				// a tag-heavy message as the very last command of a one-template file: the pieces a message body is
+				// cut into are the write sites closest to the end of the source
+				prog = g.Bundle(1, 1)
+				t := prog.B.Files[0].Templates[0]
+				text := []string{"aaa <b>bbb</b> ccc <i>ddd</i> eee <br/> fff", "<a href=\"/x\">link</a> and <b>more</b> text <i>here</i>", "x<b>y</b>"}[ctx.Rng.Intn(3)]
+				t.Body = append(t.Body, &ref.Msg{Desc: "d", Body: []ref.Node{&ref.Raw{Text: text}}})
+				ctx.Cell("msg-at-end-of-file")
+			}
 			files := bundleSources(prog.B, ref.Layout{})
 			segs, st := ref.Render(prog.B, prog.Entry, prog.Data, ref.RenderOpts{IJ: prog.IJ})
 			if st != ref.OK {
@@ -193,6 +202,9 @@ func init() {
 				if !cells["site:"+s] {
 					why = append(why, "write site never failed: "+s)
 				}
+			}
+			if !cells["msg-at-end-of-file"] {
+				why = append(why, "no message at the end of a file")
 			}
 			if obs["faults_injected"] == 0 {
 				why = append(why, "no fault injected")
